@@ -158,6 +158,9 @@ DUNDERS = [
     "[r.c][0].__class__", "r.__slots__", "r.sl.__len__", "net.__dict__", "string.__call__", "r.c.__call__",
     "any.__self__", "r.u.__init__.__globals__", "lower(r.s).__class__", "'a'.__class__", "r.__setattr__",
     "r.__class__.__bases__", "fields.__self__", "r.c.m.__globals__",
+    # every double-underscore attribute, not only the __dunder__ form
+    "r.__secret", "r.c.__private", "r.c.a.__x", "r.s.__len", "Type.__foo", "r.__slots", "r.c.__dict", "r.__x_",
+    "str(r).__x", "r.c.__", "r.c.___",
 ]
 
 CONTEXTS = [
